@@ -357,43 +357,66 @@ def _scan(repo, col, R="R-C06-scan"):
     inner = repo.func(JU, "_inner_nested_scan")
     exi = idx.expander(repo, inner)
     rets = exi.returns
-    if len(rets) != 2:
+    if len(rets) != 2 or len(exi.return_guards) != 2:
         col.unk(R, inner, "_inner_nested_scan", f"expected two return statements, found {len(rets)}", node=inner.node)
         return
-    base, rec = rets
-    ok = base.op == "callv" and [a.pretty() for a in base.args] == ["scan_fn", "f", "init", "xs", "lengths[0]"]
-    col.check(ok, R, inner, "innermost level: scan_fn(f, init, xs, lengths[0])", base.short(), f"base case returns {base.short()}",
-              node=inner.node)
-    # the base case is taken exactly when one level is left
-    bg = [n for n in walk_no_nested(inner.node) if isinstance(n, ast.If)]
-    verdict, shown = "UNDECIDED", None
-    if bg:
-        tt = exi.term(bg[0].test)
-        shown = unparse(bg[0].test)
+
+    def levels_of(x):
+        """('all' | 'rest') if x is lengths / lengths[1:]"""
+        if x.op == "param" and x.name == "lengths":
+            return "all"
+        if x.op == "sub" and x.args[0].op == "param" and x.args[0].name == "lengths" and x.args[1].op == "slice" and \
+                x.args[1].args[0].op == "const" and x.args[1].args[0].name == 1 and x.args[1].args[1].name is None:
+            return "rest"
+        return None
+
+    def one_left(tt):
+        """True: the test holds exactly when one level is left; False: exactly when MORE than one is left; None: neither."""
         neg = False
         while tt.op in ("not",) or (tt.op == "unary" and tt.name == "Not"):
             neg = not neg
             tt = tt.args[0]
-        def levels_of(x):
-            """('all' | 'rest') if x is lengths / lengths[1:]"""
-            if x.op == "param" and x.name == "lengths":
-                return "all"
-            if x.op == "sub" and x.args[0].op == "param" and x.args[0].name == "lengths" and x.args[1].op == "slice" and \
-                    x.args[1].args[0].op == "const" and x.args[1].args[0].name == 1 and x.args[1].args[1].name is None:
-                return "rest"
-            return None
+        res = None
         if tt.op == "cmp" and len(tt.args) == 2 and tt.args[0].op == "call" and tt.args[0].name == "len" and tt.args[1].op == "const" \
-                and isinstance(tt.args[1].name, int) and not neg:
+                and isinstance(tt.args[1].name, int):
             which, c, op = levels_of(tt.args[0].args[0]), tt.args[1].name, tt.name
             if which is not None:
-                n1 = c + (1 if which == "rest" else 0)  # in terms of len(lengths)
-                one_left = (op == "==" and n1 == 1) or (op == "<=" and n1 == 1) or (op == "<" and n1 == 2)
-                verdict = "DISCHARGED" if one_left else "VIOLATED"
-        elif neg and levels_of(tt) == "rest":
+                n1 = c + (1 if which == "rest" else 0)  # in terms of len(lengths); len(lengths) >= 1 always
+                if (op == "==" and n1 == 1) or (op == "<=" and n1 == 1) or (op == "<" and n1 == 2):
+                    res = True
+                elif (op == "!=" and n1 == 1) or (op == ">" and n1 == 1) or (op == ">=" and n1 == 2):
+                    res = False
+                else:
+                    res = "wrong"
+        elif levels_of(tt) == "rest":   # truthiness of lengths[1:]
+            res = False
+        if res in (True, False) and neg:
+            res = not res
+        return res
+
+    # which return is the plain scan (base) and which the recursion: by their guards
+    g0 = [g for g in exi.return_guards[0] if g.op != "loop"]
+    shown = g0[0].short(60) if g0 else None
+    verdict = "UNDECIDED"
+    base, rec = rets
+    if len(g0) == 1:
+        ol = one_left(g0[0])
+        if ol is True:
             verdict = "DISCHARGED"
+        elif ol is False:
+            verdict = "DISCHARGED"
+            base, rec = rets[1], rets[0]
+        elif ol == "wrong":
+            verdict = "VIOLATED"
+    if base.op != "callv" and rec.op == "callv":
+        base, rec = rec, base
+    ok = base.op == "callv" and [a.pretty() for a in base.args] == ["scan_fn", "f", "init", "xs", "lengths[0]"]
+    col.check(ok, R, inner, "innermost level: scan_fn(f, init, xs, lengths[0])", base.short(), f"base case returns {base.short()}",
+              node=inner.node)
     col.add(R, inner, "base case when exactly one level is left", verdict,
             "len(lengths) == 1" if verdict == "DISCHARGED" else
-            f"base-case test is `{shown}`: the innermost plain scan must be used exactly when one level (lengths[0]) is left", node=bg[0] if bg else inner.node)
+            f"the test that separates the plain scan from the recursion is `{shown}`: the innermost plain scan must be used exactly when "
+            f"one level (lengths[0]) is left", node=inner.node)
     ok_rec = rec.op == "tuple" and len(rec.args) == 2
     sub_ex = None
     if ok_rec:
